@@ -19,12 +19,13 @@
    or in the free list exactly once.  [wf h] is [exists s, inv h s].
    [proved o]: the operations whose refinement is proved (NodeHistory.v): new,
    gnode_after/before, gnode_add/node_add, gnode_insert/node_insert at every
-   position code, unlink, node/list/tree clone, clear, destroy, relink, traversal.
-   NOT in [proved]: node_move (merge), gnode_swap, gnode_switch and the harness'
-   final clean-up; for those the model is tied to the specification and to the code
-   by the differential run only (that is why the history theorems are _partial). *)
+   position code, unlink, node/list/tree clone, clear, destroy, relink, traversal
+   and the final clean-up (unlink + destroy of every node without parent).
+   NOT in [proved]: node_move (merge), gnode_swap, gnode_switch; for those the model
+   is tied to the specification and to the code by the differential run only (that
+   is why the history theorems are _partial). *)
 From MptV Require Import C14.NodeModel C14.NodeSpec C14.NodeRep C14.NodeInv C14.NodeRefine
-  C14.NodeClone C14.NodeHistory.
+  C14.NodeFree C14.NodeClone C14.NodeHistory C14.NodeCheck C14.NodeEnd.
 From Coq Require Import List ZArith.
 Import ListNotations.
 
@@ -51,6 +52,15 @@ Theorem C14_wf_preserved_partial :
   forall o h, proved o -> wf h -> exists h' out, mstep h o = ROk (h', out) /\ wf h'.
 Proof. exact wf_step. Qed.
 
+(* "Represents a forest" IS link consistency: every heap satisfying the invariant
+   passes the explicit raw-link rules of [wfcheck] (NodeModel.v; the same rules the
+   harness evaluates on the real nodes): all pointers name live cells, next/prev
+   agree, siblings share the parent, a node without prev is its parent's first
+   child, a first child has no prev and names its parent, parent chains and next
+   chains end (no cycles). *)
+Theorem C14_wf_links : forall h s, inv h s -> wfcheck h = true.
+Proof. exact inv_wfcheck. Qed.
+
 (* Released exactly once: in every reachable state no id is in the free list twice,
    a freed cell is gone and not in the forest, and every id handed out is either
    freed or a live cell.  (That no operation frees twice or touches freed memory is
@@ -61,6 +71,16 @@ Theorem C14_released_once :
     (forall i, In i (freed h) -> cells h i = None /\ ~ In i (ids_st (lists s))) /\
     (forall i, i < nextid h -> In i (freed h) \/ (exists nd, cells h i = Some nd)).
 Proof. exact inv_released_once. Qed.
+
+(* ... and at the end of every history: unlinking and destroying every node without
+   parent (what the harness does before it asks LeakSanitizer) leaves no live cell
+   and a free list that is a permutation of ALL ids ever handed out: every node
+   has been released exactly once. *)
+Theorem C14_cleanup_releases_all :
+  forall h s, inv h s ->
+    exists h', mstep h OEnd = ROk (h', OutZ 0%Z) /\ nextid h' = nextid h /\
+      (forall i, cells h' i = None) /\ Permutation.Permutation (freed h') (seq 0 (nextid h)).
+Proof. exact end_releases_all. Qed.
 
 (* clear / destroy release exactly the nodes below (and including) the node:
    instances of C14_step_refines_forest, stated for reference through [sstep]:
@@ -91,14 +111,14 @@ Proof. exact inv_empty. Qed.
 Definition ex_ops : list op :=
   [ONew 1 0; ONew 2 1; ONew 1 2; ONew 3 0; ONew 2 0;
    OIns false 0 0%Z 1; OIns true 0 (-1)%Z 2; OIns false 1 1%Z 3; OAdd true 1 0%Z 4;
-   OTClone 0; OUnlink 1; OAfter (Some 2) (Some 1); OClear 5; ODestroy 5; OTrav InOrder 3 0].
+   OTClone 0; OUnlink 1; OAfter (Some 2) (Some 1); OClear 5; ODestroy 5; OTrav InOrder 3 0; OEnd].
 
 Example C14_ex_proved : Forall proved ex_ops.
 Proof. repeat constructor. Qed.
 
 (* ... so the theorem applies to it; its forests are not trivial: *)
 Example C14_ex_final_forest :
-  lists (snd (last (srun empty_sstate ex_ops) (OutX, empty_sstate))) =
+  lists (snd (nth 14 (srun empty_sstate ex_ops) (OutX, empty_sstate))) =
   [[T 0 1 0 [T 4 2 0 []; T 2 1 2 []; T 1 2 1 [T 3 3 0 []]]]].
 Proof. vm_compute. reflexivity. Qed.
 
@@ -111,11 +131,22 @@ Proof. vm_compute. split; reflexivity. Qed.
 
 (* the model runs the same history without fault and its raw-link checker agrees *)
 Example C14_ex_model_wf :
-  match last (mrun empty_heap ex_ops) None with
+  match nth 14 (mrun empty_heap ex_ops) None with
   | Some (OutL l, h) => l = [4; 0; 2; 3; 1] /\ wfcheck h = true /\ freed h = [5; 9; 8; 6; 7]
   | _ => False
   end.
 Proof. vm_compute. repeat split; reflexivity. Qed.
+
+(* ... and after the clean-up all ten ids are in the free list, once each *)
+Example C14_ex_all_released :
+  match last (mrun empty_heap ex_ops) None with
+  | Some (OutZ z, h) => z = 0%Z /\ nextid h = 10 /\ length (freed h) = 10 /\ NoDup (freed h)
+  | _ => False
+  end.
+Proof.
+  vm_compute. repeat split; try reflexivity.
+  repeat (constructor; [cbn; intuition discriminate|]). constructor.
+Qed.
 
 (* a refused destroy (node still linked) and a guard of the history language *)
 Example C14_ex_refusals :
@@ -126,5 +157,7 @@ Proof. vm_compute. reflexivity. Qed.
 Print Assumptions C14_step_refines_forest.
 Print Assumptions C14_history_refines_forest_partial.
 Print Assumptions C14_wf_preserved_partial.
+Print Assumptions C14_wf_links.
 Print Assumptions C14_released_once.
+Print Assumptions C14_cleanup_releases_all.
 Print Assumptions C14_clone_equal_shape.
